@@ -362,6 +362,10 @@ impl Oracle {
         self.names.insert(id, name.to_string());
     }
     fn on_rm(&mut self, id: usize) {
+        let in_prev = self.prev_variant.as_ref().map(|v| v.contains(&id)).unwrap_or(false) && !self.pending_rm.contains(&id);
+        if !in_prev && !self.pending_add.contains(&id) {
+            self.hit("C12", format!("removal of datum {} accepted although it is not in the current variant (absent, stale or already removed)", id));
+        }
         if let Some(p) = self.pending_add.iter().position(|&x| x == id) {
             self.pending_add.remove(p);
         } else {
@@ -509,6 +513,7 @@ impl<'a> Session<'a> {
         self.stats.requests += 1;
         *self.stats.entries.entry(r.entry.to_string()).or_default() += 1;
         let line = format!("add {} {} {} {} {} {}", r.name, r.ty.replace(' ', "_"), r.size, r.align, if r.uninit { 1 } else { 0 }, r.entry);
+        let before_cur = self.sut.as_ref().unwrap().cur();
         let res = catch(|| self.sut.as_mut().unwrap().add(r));
         match res {
             Ok(Ok(id)) => {
@@ -521,6 +526,10 @@ impl<'a> Session<'a> {
                 let c = err_class(&e);
                 *self.stats.errors.entry(c.to_string()).or_default() += 1;
                 self.out.emit(&line, &format!("err {}", c));
+                let after = self.sut.as_ref().unwrap().cur();
+                if after != before_cur {
+                    self.ora.hit("C12", format!("rejected add changed the current data {:?} -> {:?}", before_cur, after));
+                }
                 None
             }
             Err(p) => {
@@ -534,6 +543,7 @@ impl<'a> Session<'a> {
         if self.dead || self.sut.is_none() { return false; }
         self.stats.requests += 1;
         let line = format!("rm {}", id);
+        let before_cur = self.sut.as_ref().unwrap().cur();
         match self.sut.as_mut().unwrap().rm(id) {
             Ok(()) => {
                 if self.ora.pending_add.contains(&id) {
@@ -547,6 +557,10 @@ impl<'a> Session<'a> {
                 let c = err_class(&e);
                 *self.stats.errors.entry(c.to_string()).or_default() += 1;
                 self.out.emit(&line, &format!("err {}", c));
+                let after = self.sut.as_ref().unwrap().cur();
+                if after != before_cur {
+                    self.ora.hit("C12", format!("rejected removal changed the current data {:?} -> {:?}", before_cur, after));
+                }
                 false
             }
         }
@@ -705,8 +719,8 @@ impl<'a> Session<'a> {
                 }
             });
             let ans = match res {
-                Err(_) => "panic".to_string(),
-                Ok(Err(e)) => format!("err {}", err_class(&e)),
+                Err(p) => { self.ora.hit("C20", format!("replay panicked: {}", p)); "panic".to_string() }
+                Ok(Err(e)) => { self.ora.hit("C20", format!("replay of a valid definition was rejected: {}", e)); format!("err {}", err_class(&e)) }
                 Ok(Ok((m, t))) => {
                     let ms = m.iter().map(|(a, b)| format!("{}>{}", vid_of(*a), vid_of(*b))).collect::<Vec<_>>().join(",");
                     let vs = t.variants().map(|v| format!("[{}]", join(&v.data().map(usize_of).collect::<Vec<_>>()))).collect::<Vec<_>>().join(";");
